@@ -135,12 +135,22 @@ class Builder:
         if k == 'obj':
             c = self.obj_class(ty)
             return c.customize(**kw) if kw else c
+        if k == 'file':
+            from spyne.model.binary import File
+            return File(**kw) if kw else File
         if k == 'arr':
             elem = self.py_type(ty['elem'], as_serializer=True)
             return Array(elem, **kw)
         raise ValueError(k)
 
     # ------------------------------------------------------------------ values
+    def native(self, ty, v):
+        """Val JSON -> native python value; nodes that carry the same "id" become one Python object"""
+        self._alias = {}
+        return self.to_native(ty, v)
+
+    _alias = {}
+
     def to_native(self, ty, v):
         """Val JSON -> native python value for the declared type"""
         if v is None:
@@ -176,9 +186,15 @@ class Builder:
         if 'uuid' in v:
             return pyuuid.UUID(hex=v['uuid'])
         if 'o' in v:
+            # {"o": ..., "id": n}: every node with the same id is the same Python object (aliasing)
+            memo = self._alias
+            if v.get('id') is not None and v['id'] in memo:
+                return memo[v['id']]
             cname, fvs = v['o']
             cls = self.classes[cname]
             inst = cls()
+            if v.get('id') is not None:
+                memo[v['id']] = inst
             fti = dict(self.flat_fields(cname, ty))
             for n, fv in fvs:
                 setattr(inst, n, self.to_native(fti[n], fv))
@@ -261,6 +277,8 @@ class Builder:
             if not isinstance(x, pyuuid.UUID):
                 raise Leak('uuid:%s' % type(x).__name__)
             return {'uuid': x.hex}
+        if k == 'file':
+            return file_value_json(x)
         if k == 'obj':
             if isinstance(x, list) and len(x) == 0:
                 return {'l': []}                    # `_doc_to_object(None)` -> [] (reported as is)
@@ -275,6 +293,34 @@ class Builder:
                 raise Leak('arr:%s' % type(x).__name__)
             return {'l': [self.from_native(ty['elem'], y, True) for y in x]}
         raise ValueError(k)
+
+
+FILE_TYPE_DEFAULT = 'application/octet-stream'
+
+
+def file_value_json(x):
+    """type walk of a File.Value as user code sees it: name / type are str or None, data is None or a sequence of
+    bytes chunks (declared: name = Unicode, type = Unicode, data = ByteArray) -> Val JSON of the FileValue object"""
+    from spyne.model.binary import File
+    if not isinstance(x, File.Value):
+        raise Leak('file:%s' % type(x).__name__)
+    out = []
+    for a in ('name', 'type'):
+        val = getattr(x, a, None)
+        if val is not None and not isinstance(val, str):
+            raise Leak('file.%s:%s' % (a, type(val).__name__))
+        out.append([a, None if val is None else {'s': cps(val)}])
+    data = getattr(x, 'data', None)
+    if data is None:
+        out.append(['data', None])
+    elif isinstance(data, (bytes, bytearray)):
+        out.append(['data', {'x': list(data)}])
+    elif isinstance(data, (list, tuple)) and all(isinstance(c, (bytes, bytearray)) for c in data):
+        out.append(['data', {'x': list(b''.join(data))}])
+    else:
+        raise Leak('file.data:%s' % (type(data).__name__ if not isinstance(data, (list, tuple))
+                                       else 'seq of ' + '/'.join(sorted({type(c).__name__ for c in data}))))
+    return {'o': ['FileValue', out]}
 
 
 class Leak(Exception):
@@ -1265,7 +1311,8 @@ class Case:
 # ===================================================================================== T1 facts
 GOOD_FACTS = {'occCount': 'perItem', 'mpNameAnyKey': True, 'nullComplexIsNone': True, 'repeatedScalarFault': True,
               'leafKindFault': True, 'boolCoerced': True, 'utf8Fault': True, 'jsonNullDateOk': True,
-              'intFromFloat': True, 'nativeKindFault': True, 'binKindFault': True, 'rawBytesKindFault': True, 'nestedArrayOk': True, 'parseErrorsFault': True, 'binTextValidated': True, 'missingBodyFault': True}
+              'intFromFloat': True, 'nativeKindFault': True, 'binKindFault': True, 'rawBytesKindFault': True, 'nestedArrayOk': True, 'parseErrorsFault': True, 'binTextValidated': True, 'missingBodyFault': True,
+              'guardPathLocal': True, 'fileFormValidated': True}
 
 FACT_WHAT = {
     'occCount': 'D09: _doc_to_object counts one occurrence per key, not per item: 3 items pass max_occurs=2 and 2 items '
@@ -1299,6 +1346,12 @@ FACT_WHAT = {
                         'raises NotImplementedError / AssertionError / UnicodeDecodeError for envelopes it cannot serve',
     'missingBodyFault': 'a request whose body under the method name is null / missing calls the user function without '
                         'arguments: TypeError, Server fault (hier.py:93-96,245)',
+    'guardPathLocal': 'the cycle-detection set of _object_to_doc is shared by the whole traversal (_get_member_pairs adds to '
+                      'the caller\'s set instead of a copy): an object referenced from two sibling members is written once '
+                      'and dropped the second time, an array that holds an object twice is written as null '
+                      '(witness: Seg(start=p, end=p, more=[q, r, q]) as a JSON result)',
+    'fileFormValidated': 'the object form of a File value is read by _doc_to_object without the validator of the protocol: '
+                         'with validator=soft, {"f": {"name": 5}} hands File.Value.name = 5 (declared Unicode) to user code',
 }
 
 
@@ -1331,6 +1384,8 @@ FACT_WITNESS = {
     'parseErrorsFault': ([['a', {'k': 'int', 'occ': occ()}]], {}, {'f': {}}),
     'missingBodyFault': ([['a', {'k': 'int', 'occ': occ()}]], {}, {'f': None}),
 }
+# switches measured by a probe of their own (replayed by name)
+PROBE_FACTS = ('guardPathLocal', 'fileFormValidated')
 
 
 PARSE_WITNESSES = [('yaml', b'a: b: c'), ('yaml', b'\x00'), ('yaml', b'*alias'), ('yaml', b'!!python/object:os.system {}'),
@@ -1366,8 +1421,64 @@ def _probe_nested():
     return {'ok': load('json', r['out'])}
 
 
+POINT_TY = {'k': 'obj', 'name': 'Pt', 'ns': TNS, 'base': None, 'occ': occ(),
+            'fields': [['x', {'k': 'int', 'kind': 'unbounded', 'r': {}, 'occ': occ()}],
+                       ['y', {'k': 'int', 'kind': 'unbounded', 'r': {}, 'occ': occ()}]]}
+SEGMENT_TY = {'k': 'obj', 'name': 'Seg', 'ns': TNS, 'base': None, 'occ': occ(),
+              'fields': [['start', POINT_TY], ['end', POINT_TY],
+                         ['more', {'k': 'arr', 'member': 'm', 'elem': POINT_TY, 'occ': occ()}]]}
+
+
+def _pt(x, y, ident=None):
+    v = {'o': ['Pt', [['x', {'i': str(x)}], ['y', {'i': str(y)}]]]}
+    if ident is not None:
+        v['id'] = ident
+    return v
+
+
+ALIAS_WITNESS = {'o': ['Seg', [['start', _pt(3, 4, 1)], ['end', _pt(3, 4, 1)], ['more', {'l': [_pt(0, 0, 2), _pt(5, 6), _pt(0, 0, 2)]}]]]}
+
+
+def _probe_alias():
+    """a result that references one Point object from two members and another one from two slots of an array:
+    `Seg(start=p, end=p, more=[q, r, q])`"""
+    B = Builder()
+    B.register([{'name': 'Pt', 'ns': TNS, 'base': None, 'fields': POINT_TY['fields']},
+                {'name': 'Seg', 'ns': TNS, 'base': None, 'fields': SEGMENT_TY['fields']}])
+    impl = Impl(B, {'args': [], 'ret': SEGMENT_TY})
+    r = impl.run(dict(CFG_DEFAULT), dump('json', {'f': {}}), ret=B.native(SEGMENT_TY, ALIAS_WITNESS))
+    if r['out'] is None or 'ok' not in r['outcome']:
+        return r['outcome']
+    return {'ok': load('json', r['out'])}
+
+
+ALIAS_EXPECTED = {'ok': {'start': {'x': 3, 'y': 4}, 'end': {'x': 3, 'y': 4}, 'more': [{'x': 0, 'y': 0}, {'x': 5, 'y': 6}, {'x': 0, 'y': 0}]}}
+
+FILE_TY = {'k': 'file', 'occ': occ()}
+FILE_WITNESS_DOCS = [{'f': {'f': {'name': 5}}}, {'f': {'f': {'type': [1]}}}, {'f': {'f': {'name': True}}}]
+
+
+def _probe_file():
+    """the object form of a File argument with a non-string name / type, under soft validation: every witness has to
+    be answered with a fault"""
+    B = Builder()
+    impl = Impl(B, {'args': [['f', FILE_TY]], 'ret': {'k': 'int', 'occ': occ()}})
+    bad = {}
+    for doc in FILE_WITNESS_DOCS:
+        r = impl.run(dict(CFG_DEFAULT, validator='soft'), dump('json', doc))
+        if 'fault' not in r['outcome']:
+            bad[json.dumps(doc)] = dict(r['outcome'], what=r.get('leak'))
+    return bad
+
+
 def measure_facts():
     f, obs = {}, {}
+    o = _probe_alias()
+    obs['guardPathLocal'] = o
+    f['guardPathLocal'] = o == ALIAS_EXPECTED
+    o = _probe_file()
+    obs['fileFormValidated'] = o
+    f['fileFormValidated'] = o == {}
     for name, w in FACT_WITNESS.items():
         args, cfg, doc = w[0], w[1], w[2]
         if name == 'parseErrorsFault':
@@ -1409,7 +1520,7 @@ def facts_lean(f):
     b = lambda x: 'true' if x else 'false'
     lines = ['  occCount := .%s' % f['occCount']]
     for k in ['mpNameAnyKey', 'nullComplexIsNone', 'repeatedScalarFault', 'leafKindFault', 'boolCoerced', 'utf8Fault',
-              'jsonNullDateOk', 'intFromFloat', 'nativeKindFault', 'binKindFault', 'rawBytesKindFault', 'nestedArrayOk', 'binTextValidated', 'parseErrorsFault', 'missingBodyFault']:
+              'jsonNullDateOk', 'intFromFloat', 'nativeKindFault', 'binKindFault', 'rawBytesKindFault', 'nestedArrayOk', 'binTextValidated', 'parseErrorsFault', 'missingBodyFault', 'guardPathLocal', 'fileFormValidated']:
         lines.append('  %s := %s' % (k, b(f[k])))
     return ('-- GENERATED by harness/hierblock.py (T1) from /repo on every run. Do not edit.\n'
             'import SpyneModel.Hier\nnamespace SpyneModel.Generated\nopen SpyneModel SpyneModel.Hier\n\n'
@@ -1421,6 +1532,7 @@ SWITCH_PROPS = {
     'occCount': {'C02', 'C05', 'C16', 'C04', 'C10'}, 'nullComplexIsNone': {'C02', 'C04', 'C05', 'C16', 'C10'},
     'jsonNullDateOk': {'C02', 'C05', 'C16', 'C04', 'C10'}, 'nestedArrayOk': {'C02', 'C16', 'C04', 'C05', 'C10'},
     'mpNameAnyKey': {'C02', 'C05', 'C10', 'C04'}, 'binTextValidated': {'C05'}, 'parseErrorsFault': {'C10'}, 'missingBodyFault': {'C04', 'C05', 'C10'},
+    'guardPathLocal': {'C02'}, 'fileFormValidated': {'C04'},
 }
 
 
@@ -1431,6 +1543,13 @@ def t1(ctx):
     ctx.write_generated('Facts02.lean', facts_lean(f))
     for k, good in GOOD_FACTS.items():
         if f[k] != good and ctx.prop in SWITCH_PROPS.get(k, {'C04', 'C05', 'C10'}):
+            if k in PROBE_FACTS:
+                ctx.hit('fact-bad:' + k)
+                ctx.finding('switch:%s=%s' % (k, f[k]), FACT_WHAT[k],
+                            {'op': 'probe', 'fact': k, 'measured': f[k], 'observed': obs[k],
+                             'expected': ALIAS_EXPECTED if k == 'guardPathLocal' else 'a Client fault for every document',
+                             'witness': ALIAS_WITNESS if k == 'guardPathLocal' else FILE_WITNESS_DOCS})
+                continue
             args, cfg, doc = FACT_WITNESS[k][:3]
             ctx.hit('fact-bad:' + k)
             ctx.finding('switch:%s=%s' % (k, f[k]), FACT_WHAT[k],
@@ -1777,7 +1896,14 @@ def part_c02(ctx, ncases=None, seed_cases=True):
                 rv = gen_field(rng, ret_ty, c.U)
             except Unsat:
                 rv = None
-            nat = c.B.to_native(ret_ty, rv)
+            # where the value offers two positions of one class, let them (half of the time) hold one Python object
+            rva, akind = alias_value(rng, rv) if rv is not None else (None, None)
+            if rva is not None and rng.random() < 0.5:
+                ctx.hit('alias-in-result:' + akind)
+                rv_sent, rv = rva, strip_ids(rva)
+            else:
+                rv_sent = rv
+            nat = c.B.native(ret_ty, rv_sent)
             for cfg in ALL_CFGS:
                 if cfg['cas'] == 'list' and not fully_populated(args):
                     ctx.hit('skip:list-needs-fully-populated')
@@ -1823,7 +1949,7 @@ def part_c02(ctx, ncases=None, seed_cases=True):
                         ctx.hit('oracle-fail:parse-dump')
                         ctx.finding('oracle:parse-dump-out:' + cfg['proto'], 'parse(dump(out_document)) != out_document',
                                     {'op': 'parse-dump', 'cfg': cfg, 'doc': doc_to_json(r['out_doc'])})
-                    B_resp.add(c.query('response', cfg, ty=ret_ty, val=rv, method='f'), {'ok': doc_to_json(out)})
+                    B_resp.add(c.query('response', cfg, ty=ret_ty, val=rv_sent, method='f'), {'ok': doc_to_json(out)})
                     ctx.case({'cfg': cfg_key(cfg), 'ret': ret_ty, 'val': rv}, nontrivial(ret_ty, rv) if rv else False)
                     try:
                         back = ref_response(cfg, 'f', ret_ty, out, c.U)
@@ -1838,7 +1964,7 @@ def part_c02(ctx, ncases=None, seed_cases=True):
                             fid = 'response:%s:%s' % (why, 'msgpack' if cfg['proto'].startswith('msgpack') else cfg['proto'])
                         ctx.hit('t3-fail:' + fid)
                         ctx.finding(fid, 'the response does not decode, by the documented conventions, to the returned value',
-                                    {'op': 'response', 'cfg': cfg, 'ty': ret_ty, 'returned': rv, 'decoded': back,
+                                    {'op': 'response', 'cfg': cfg, 'ty': ret_ty, 'returned': rv_sent, 'decoded': back,
                                      'reg': c.U.registry(), 'response_doc': doc_to_json(out)})
                 # ---- mutated requests (T2 only; C10 evaluates the property on them)
                 doc0 = ref_request(cfg, 'f', c.in_ty, args, c.U, bytes_keys=cfg['proto'].startswith('msgpack') and rng.random() < 0.7)
@@ -1878,11 +2004,213 @@ def part_c02(ctx, ncases=None, seed_cases=True):
                     {'op': 'request', 'cfg': cfg, 'bytes_keys': bk, 'ty': c.in_ty, 'reg': c.U.registry(), 'args': args,
                      'doc': doc_to_json(doc), 'observed': r['outcome'], 'where': r.get('where'), 'stage': r.get('stage'),
                      'ret_ty': c.sig['ret'], 'returned': r.get('ret_val')})
+    part_alias(ctx)
     part_codec(ctx)
     ctx.cov['rule'] = ('cases = generated class universes (depth <= 4, inheritance, wrapped arrays, repeated members, facets) x '
                        'conformant argument tuples (boundary biased, None at optional positions) x 32 configurations x key '
                        'kinds, plus type-directed document mutations; distinct = canonical (cfg, type, value/document); '
                        'non-trivial = value tree with >= 2 leaves under a type of depth >= 2')
+
+
+# ===================================================================================== aliasing (cycle guard)
+def obj_nodes(v, path=()):
+    """paths of the object nodes of a Val JSON tree"""
+    out = []
+    if isinstance(v, dict):
+        if 'o' in v:
+            out.append(path)
+            for i, (_, fv) in enumerate(v['o'][1]):
+                out += obj_nodes(fv, path + (('o', i),))
+        elif 'l' in v:
+            for i, x in enumerate(v['l']):
+                out += obj_nodes(x, path + (('l', i),))
+    return out
+
+
+def node_at(v, path):
+    for kind, i in path:
+        v = v['o'][1][i][1] if kind == 'o' else v['l'][i]
+    return v
+
+
+def set_node(v, path, new):
+    if not path:
+        return new
+    parent = node_at(v, path[:-1])
+    kind, i = path[-1]
+    if kind == 'o':
+        parent['o'][1][i][1] = new
+    else:
+        parent['l'][i] = new
+    return v
+
+
+def strip_ids(v):
+    """the same value built from distinct objects"""
+    if isinstance(v, dict):
+        if 'o' in v:
+            return {'o': [v['o'][0], [[n, strip_ids(x)] for n, x in v['o'][1]]]}
+        if 'l' in v:
+            return {'l': [strip_ids(x) for x in v['l']]}
+    return v
+
+
+def _nested(p, q):
+    n = min(len(p), len(q))
+    return p[:n] == q[:n]
+
+
+def alias_value(rng, v, siblings=None):
+    """make one object of the value tree appear at one or two further positions *as the same Python object* (nodes
+    with equal "id"): positions that hold an instance of the same class and are not nested into each other
+    (siblings=True: members of one object / slots of one list only).  None if the value offers no such positions.
+    Returns (value, kind) with kind in fields / array / cousins."""
+    nodes = obj_nodes(v)
+    by_cls = {}
+    for p in nodes:
+        by_cls.setdefault(node_at(v, p)['o'][0], []).append(p)
+    pairs = []
+    for cname, ps in by_cls.items():
+        for a in ps:
+            for b in ps:
+                if a < b and not _nested(a, b):
+                    sib = a[:-1] == b[:-1]
+                    if siblings is None or siblings == sib:
+                        pairs.append((a, b))
+    if not pairs:
+        return None, None
+    a, b = rng.choice(pairs)
+    if rng.random() < 0.5:
+        a, b = b, a
+    targets = [b]
+    more = [q for (p, q) in pairs + [(y, x) for x, y in pairs] if p == a and q != b and not _nested(q, b)]
+    if more and rng.random() < 0.4:
+        targets.append(rng.choice(more))
+    v2 = json.loads(json.dumps(v))
+    src = node_at(v2, a)
+    src['id'] = 1
+    for t in targets:
+        v2 = set_node(v2, t, json.loads(json.dumps(src)))
+    if a[:-1] == b[:-1]:
+        kind = 'array' if a[-1][0] == 'l' else 'fields'
+    else:
+        kind = 'cousins'
+    return v2, kind
+
+
+def alias_universe(rng):
+    """a generated universe plus a class `Pair` that offers sibling positions of one class: two members, a wrapped
+    array and a repeated member of class `cd`"""
+    U = Universe(rng, nclasses=rng.choice([2, 3]), depth=2)
+    cd = rng.choice(U.classes)
+    # (member names in alphabetical order, like those of the generated classes: yaml.dump sorts mapping keys)
+    fields = [['p0_tag', gen_leaf(rng, 'str', occ(), facets=False)],
+              ['p1_start', U.obj_ty(cd, occ(rng.random() < 0.6, rng.choice([0, 1]), 1))],
+              ['p2_end', U.obj_ty(cd, occ(rng.random() < 0.6, rng.choice([0, 1]), 1))],
+              ['p3_items', {'k': 'arr', 'member': 'm', 'elem': U.obj_ty(cd, occ(True, 0, 1)), 'occ': occ()}],
+              ['p4_more', U.obj_ty(cd, occ(True, 0, None))]]
+    pair = {'name': 'Pair', 'ns': TNS, 'base': None, 'fields': fields}
+    U.classes.append(pair)
+    U.by_name['Pair'] = pair
+    return U, cd, pair
+
+
+def part_alias(ctx, ncases=None):
+    """results that reference one object from several positions: members of one object, slots of one array, cousins.
+    T3: the response is the one written for the same value built from distinct objects (control), and it decodes to the
+    returned value; T2: the model's guarded encoder on the value with its identities."""
+    rng = ctx.rng
+    ncases = ncases or (24 if ctx.thorough else 8)
+    B_resp = Batch(ctx)
+    arg_ty = {'k': 'int', 'kind': 'unbounded', 'r': {}, 'occ': occ()}
+    nali = 0
+    for ci in range(ncases):
+        for _ in range(50):
+            U, cd, pair = alias_universe(rng)
+            B = Builder()
+            try:
+                B.register(U.classes)
+                break
+            except ValueError:
+                continue
+        B.universe_fields = {c['name']: c['fields'] for c in U.classes}
+        rets = [U.obj_ty(pair), {'k': 'arr', 'member': 'm', 'elem': U.obj_ty(cd, occ(True, 0, 1)), 'occ': occ()},
+                {'k': 'arr', 'member': 'm', 'elem': U.obj_ty(pair, occ(True, 0, 1)), 'occ': occ()}]
+        for ri, ret_ty in enumerate(rets):
+            try:
+                impl = Impl(B, {'args': [['a0', arg_ty]], 'ret': ret_ty})
+                impl.server(CFG_DEFAULT)
+            except (ValueError, AssertionError):
+                continue
+            in_ty = impl.in_ty()
+            args = {'o': ['f', [['a0', {'i': '1'}]]]}
+            for vi in range(3 if ctx.thorough else 2):
+                try:
+                    if ret_ty['k'] == 'arr':
+                        rv = {'l': [gen_item(rng, ret_ty['elem'], U, 0.0, allow_none=False) for _ in range(rng.choice([2, 3, 4]))]}
+                    else:
+                        rv = gen_one(rng, ret_ty, U, 0.05)
+                        # the sibling positions are populated
+                        for i, (n, ft) in enumerate(ret_ty['fields']):
+                            if n in ('p1_start', 'p2_end') and rv['o'][1][i][1] is None:
+                                rv['o'][1][i][1] = gen_one(rng, ft, U, 0.05)
+                            if n in ('p3_items', 'p4_more') and (rv['o'][1][i][1] is None or len(rv['o'][1][i][1]['l']) < 2):
+                                it = ft['elem'] if ft['k'] == 'arr' else ft
+                                rv['o'][1][i][1] = {'l': [gen_one(rng, it, U, 0.05) for _ in range(rng.choice([2, 3]))]}
+                except Unsat:
+                    continue
+                if rv is None or any(x is None for x in (rv.get('l') or [])):
+                    continue
+                rva, kind = alias_value(rng, rv, siblings=rng.choice([True, True, None]))
+                if rva is None:
+                    ctx.hit('alias:no-positions')
+                    continue
+                plain = strip_ids(rva)
+                nali += 1
+                for cfg in (ALL_CFGS if ctx.thorough else rng.sample(ALL_CFGS, 12)):
+                    doc = ref_request(cfg, 'f', in_ty, args, U, bytes_keys=cfg['proto'].startswith('msgpack'))
+                    data = dump(cfg['proto'], doc)
+                    r1 = impl.run(cfg, data, ret=B.native(ret_ty, rva))
+                    r0 = impl.run(cfg, data, ret=B.native(ret_ty, plain))
+                    fam = 'msgpack' if cfg['proto'].startswith('msgpack') else cfg['proto']
+                    ctx.case({'alias': cfg_key(cfg), 'ret': ret_ty, 'val': rva}, True)
+                    ctx.hit('alias:%s:%s' % (kind, fam))
+                    rep = {'op': 'response', 'cfg': cfg, 'ty': ret_ty, 'returned': rva, 'reg': U.registry(), 'aliasing': kind}
+                    if r1.get('resp_crash') or r0.get('resp_crash') or r1['out'] is None or r0['out'] is None:
+                        if (r1.get('resp_crash'), r1['out'] is None) != (r0.get('resp_crash'), r0['out'] is None):
+                            ctx.finding('response:aliasing-changes-outcome:%s:%s' % (kind, fam),
+                                        'a result that references one object twice is answered differently from the same value '
+                                        'built from distinct objects', dict(rep, aliased=r1.get('resp_crash') or r1['outcome'],
+                                                                             control=r0.get('resp_crash') or r0['outcome']))
+                        continue
+                    out1, out0 = load(cfg['proto'], r1['out']), load(cfg['proto'], r0['out'])
+                    B_resp.add({'op': 'response', 'cfg': cfg, 'reg': U.registry(), 'ty': ret_ty, 'val': rva, 'method': 'f'},
+                               {'ok': doc_to_json(out1)})
+                    # ---- T3 (control): object identity among siblings does not show in the document
+                    if not same_doc(out1, out0):
+                        ctx.hit('t3-fail:alias:' + kind)
+                        ctx.finding('response:aliasing-changes-document:%s:%s' % (kind, fam),
+                                    'the response for a result that references one object from two positions (%s) differs from '
+                                    'the response for the same value built from distinct objects' % kind,
+                                    dict(rep, response_doc=doc_to_json(out1), control_doc=doc_to_json(out0)))
+                        continue
+                    # ---- T3: the response decodes to the returned value
+                    try:
+                        back = ref_response(cfg, 'f', ret_ty, out1, U)
+                        okb, why = back == plain, 'differs'
+                    except (RefError, ValueError, UnicodeDecodeError, binascii.Error) as e:
+                        okb, back, why = False, repr(e), 'undecodable'
+                    if not okb:
+                        fid = ('response:none-object-written-as-empty-object' if has_none_obj_item(ret_ty, plain)
+                               else 'response:%s:%s' % (why, fam))
+                        ctx.hit('t3-fail:' + fid)
+                        ctx.finding(fid, 'the response does not decode, by the documented conventions, to the returned value',
+                                    dict(rep, decoded=back, response_doc=doc_to_json(out1)))
+    B_resp.run('hier.response-aliased')
+    ctx.cov['aliased_results'] = nali
+    ctx.cov['alias_rule'] = ('results with one object at 2-3 positions (two members of an object, slots of a wrapped array or of a '
+                             'repeated member, cousins) x 32 configurations, each against the value-equal control built from '
+                             'distinct objects')
 
 
 def spyne_parses(cfg, data):
@@ -1991,6 +2319,12 @@ def replay(ctx, obj):
     """re-execute one recorded case on the implementation (and on the model where a query is recorded)"""
     print('replay of:', obj.get('what'))
     op = obj.get('op')
+    if op == 'probe':
+        o = _probe_alias() if obj['fact'] == 'guardPathLocal' else _probe_file()
+        print('witness :', json.dumps(obj.get('witness'))[:600])
+        print('impl    :', o)
+        print('expected:', obj.get('expected'))
+        return 0
     if op == 'witness':
         r, _ = _probe(obj['args'], obj['cfg'], json_to_doc(obj['doc']))
         print('impl  :', r['outcome'], r.get('where'))
@@ -2007,17 +2341,32 @@ def replay(ctx, obj):
             impl = Impl(B, sig)
             data = dump(cfg['proto'], json_to_doc(obj['doc']))
             r = impl.run(cfg, data)
+            print('config:', cfg_key(cfg))
+            print('bytes :', data[:400])
             print('impl  :', r['outcome'], r.get('where'))
             body, _ = request_body(cfg, load(cfg['proto'], data))
-            print('model :', ctx.model([{'op': 'request', 'cfg': cfg, 'reg': reg, 'ty': obj['ty'], 'doc': doc_to_json(body)}], driver='C02')[0])
+            mty = file_model_ty(obj['ty'])
+            if mty != obj['ty']:
+                # File members: the model reads their object form as the class FileValue (plain-bytes form: T3 only)
+                reg = [FILE_VALUE_DEF] + [dict(c, fields=file_model_ty(dict(c, k='obj'))['fields']) for c in reg]
+                print('leak  :', r.get('leak'))
+            if mty != obj['ty'] and not (obj.get('form') == 'object' and str(obj.get('mutation', '')).split(':')[0] in ('valid', 'member')):
+                print('model : (a File node in plain-bytes form / replaced as a whole: outside the model, T3 only)')
+            else:
+                print('model :', ctx.model([{'op': 'request', 'cfg': cfg, 'reg': reg, 'ty': mty, 'doc': doc_to_json(body)}], driver='C02')[0])
             print('sent  :', obj.get('args'))
         else:
             sig = {'args': [], 'ret': obj['ty']}
             impl = Impl(B, sig)
             doc = [0, 1, 'f', [] if cfg['iw'] else {'f': {}}] if cfg['proto'] == 'msgpackrpc' else {(b'f' if cfg['proto'] == 'msgpack' else 'f'): {}}
-            r = impl.run(cfg, dump(cfg['proto'], doc), ret=B.to_native(obj['ty'], obj['returned']))
-            print('impl  :', r['outcome'], r.get('out'))
+            r = impl.run(cfg, dump(cfg['proto'], doc), ret=B.native(obj['ty'], obj['returned']))
             print('returned:', obj['returned'])
+            print('impl  :', r.get('resp_crash') or r['outcome'], r.get('out'))
+            if strip_ids(obj['returned']) != obj['returned']:
+                r0 = impl.run(cfg, dump(cfg['proto'], doc), ret=B.native(obj['ty'], strip_ids(obj['returned'])))
+                print('control (same value, distinct objects):', r0.get('resp_crash') or r0['outcome'], r0.get('out'))
+            print('model :', ctx.model([{'op': 'response', 'cfg': cfg, 'reg': reg, 'ty': obj['ty'], 'val': obj['returned'],
+                                         'method': 'f'}], driver='C02')[0])
         return 0
     if op == 'bytes':
         B = Builder()
@@ -2137,10 +2486,158 @@ def part_c04(ctx):
                                     {'op': 'request', 'cfg': cfg, 'ty': c.in_ty, 'reg': c.U.registry(), 'doc': doc_to_json(doc),
                                      'observed': r['outcome'], 'leak': r.get('leak')})
     B_mut.run('hier.request-retagged')
+    part_c04_file(ctx)
     ctx.cov['c04_hier_rule'] = ('valid requests of generated signatures with inheritance x 32 configurations, each retagged with '
                                 'class names of the interface at every wrapper position and mutated by kind swaps; the oracle '
                                 'walks the captured argument tree (isinstance of the declared native type / class / subclass)')
     ctx.cov['c04_hier_leaks_under_soft'] = nleak
+
+
+# ---- File (outside the shared type universe: T3 on the real pipeline, T2 for the object form through `FileValue`)
+STR_PLAIN = {'k': 'str', 'minLen': 0, 'maxLen': None, 'pattern': None, 'values': [], 'occ': occ()}
+FILE_VALUE_DEF = {'name': 'FileValue', 'ns': 'spyne.model.binary', 'base': None,
+                  'fields': [['name', STR_PLAIN], ['type', STR_PLAIN], ['data', {'k': 'bytes', 'enc': 'base64', 'occ': occ()}]]}
+
+
+def file_model_ty(t):
+    """the model's view of a signature with File members: the object form of a File is the class FileValue read by the
+    same `_doc_to_object` (lean/SpyneModel/HierFile.lean)"""
+    k = t['k']
+    if k == 'file':
+        return dict(FILE_VALUE_DEF, k='obj', occ=t.get('occ') or occ())
+    if k == 'obj':
+        return dict(t, fields=[[n, file_model_ty(ft)] for n, ft in t['fields']])
+    if k == 'arr':
+        return dict(t, elem=file_model_ty(t['elem']))
+    return t
+
+
+def gen_file_value(rng):
+    return {'name': rng.choice([None, 'a.txt', 'a.txt', '\u00e9.bin', 'x']), 'type': rng.choice([None, 'text/plain', 'text/plain', 'a/b']),
+            'data': rng.choice([None, b'', b'hello', bytes([0, 255, 128, 10])])}
+
+
+def file_node(rng, cfg, fv, form, bk):
+    """the document node for a File value: `plain` = the encoded bytes alone, `object` = the members of File.Value
+    (always with a `type` entry, see part_c04_file). Returns (node, {member: path inside the node})"""
+    mp = cfg['proto'].startswith('msgpack')
+    K = (lambda n: n.encode('utf8')) if bk else (lambda n: n)
+    T = (lambda x: None if x is None else x.encode('utf8')) if (mp and bk) else (lambda x: x)
+    D = (lambda b: b) if mp else (lambda b: None if b is None else base64.b64encode(b).decode('ascii'))
+    if form == 'plain':
+        return D(fv['data'] or b''), {}
+    members = [('name', T(fv['name'])), ('type', T(fv['type'] or 'text/plain')), ('data', D(fv['data']))]
+    if cfg['cas'] == 'list':
+        return [v for _, v in members], {n: (i,) for i, (n, _) in enumerate(members)}
+    body = {K(n): v for n, v in members if v is not None or n == 'type'}
+    where = {n: (K(n),) for n, v in members if K(n) in body}
+    if cfg['iw']:
+        return body, where
+    return {K('FileValue'): body}, {n: (K('FileValue'),) + p for n, p in where.items()}
+
+
+def file_pool(rng, proto):
+    pool = [5, 0, True, False, 1.5, 'txt', '', ['a.txt'], [1], [], {}, {'a': 1}, {'name': 5}, None, [[b'x' if proto != 'json' else 'x']]]
+    if proto != 'json':
+        pool += [b'\xff\xfe', b'abc']
+    return pool
+
+
+def part_c04_file(ctx):
+    """File arguments and members (plain-bytes form and object form) under type-directed mutation.
+    T3: the captured argument tree is walked incl. File.Value.name / type / data (declared Unicode, Unicode, ByteArray);
+    T2: requests whose File nodes are in object form, read by the model as objects of class FileValue."""
+    rng = ctx.rng
+    B_file = Batch(ctx)
+    nleak = nruns = 0
+    upload = {'name': 'Upload', 'ns': TNS, 'base': None,
+              'fields': [['attachment', {'k': 'file', 'occ': occ()}], ['more', {'k': 'file', 'occ': occ(True, 0, None)}],
+                         ['title', STR_PLAIN]]}
+    for ci in range(6 if ctx.thorough else 2):
+        B = Builder()
+        B.register([upload])
+        B.universe_fields = {'Upload': upload['fields']}
+        f_occ = occ(rng.random() < 0.7, rng.choice([0, 0, 1]), 1)
+        sig = {'args': [['f', {'k': 'file', 'occ': f_occ}], ['u', dict(upload, k='obj', occ=occ())]], 'ret': {'k': 'int', 'occ': occ()}}
+        impl = Impl(B, sig)
+        in_ty = impl.in_ty()
+        m_ty = file_model_ty(in_ty)
+        reg = [FILE_VALUE_DEF, dict(upload, fields=file_model_ty(dict(upload, k='obj'))['fields'])]
+        names = ['FileValue', 'Upload', 'f']
+        for cfg in ALL_CFGS:
+            mp = cfg['proto'].startswith('msgpack')
+            bk = mp
+            K = (lambda n: n.encode('utf8')) if bk else (lambda n: n)
+            for form in ('object', 'plain', 'mixed'):
+                forms = [form if form != 'mixed' else rng.choice(['object', 'plain']) for _ in range(4)]
+                nodes = [file_node(rng, cfg, gen_file_value(rng), fm, bk) for fm in forms]
+                title = 't\u00e9' if not (mp and bk) else 't\u00e9'.encode('utf8')
+                # ---- the request document and the places of its File nodes / File members
+                if cfg['cas'] == 'list':
+                    u_body = [nodes[1][0], [nodes[2][0], nodes[3][0]], title]
+                    u_paths = [(0,), (1, 0), (1, 1)]
+                    u_doc = u_body
+                    body = [nodes[0][0], u_doc]
+                    places = [(0,)] + [(1,) + q for q in u_paths]
+                else:
+                    u_body = {K('attachment'): nodes[1][0], K('more'): [nodes[2][0], nodes[3][0]], K('title'): title}
+                    u_paths = [(K('attachment'),), (K('more'), 0), (K('more'), 1)]
+                    if cfg['iw']:
+                        u_doc = u_body
+                    else:
+                        u_doc, u_paths = {K('Upload'): u_body}, [(K('Upload'),) + q for q in u_paths]
+                    body = {K('f'): nodes[0][0], K('u'): u_doc}
+                    places = [(K('f'),)] + [(K('u'),) + q for q in u_paths]
+                if cfg['proto'] == 'msgpackrpc':
+                    doc0, root = [0, 1, 'f', body if cfg['iw'] else {K('f'): body}], (3,) if cfg['iw'] else (3, K('f'))
+                else:
+                    doc0, root = {K('f'): body}, (K('f'),)
+                muts = [(doc0, 'valid', form == 'object')]
+                pool = file_pool(rng, cfg['proto'])
+                for _ in range(8 if ctx.thorough else 5):
+                    i = rng.randrange(4)
+                    place = root + places[i]
+                    if forms[i] == 'object' and rng.random() < 0.75:
+                        member = rng.choice(sorted(nodes[i][1]))
+                        d = set_at(deep(doc0), place + nodes[i][1][member], rng.choice(pool))
+                        muts.append((d, 'member:' + member, form == 'object'))
+                    else:
+                        muts.append((set_at(deep(doc0), place, rng.choice(pool)), 'node', False))
+                for _ in range(2):
+                    d, tag = mutate_doc(rng, doc0, cfg['proto'], names)
+                    muts.append((d, 'any:' + tag, False))
+                for doc, tag, modelled in muts:
+                    try:
+                        data = dump(cfg['proto'], doc)
+                        parsed = load(cfg['proto'], data)
+                    except Exception:
+                        continue
+                    if not spyne_parses(cfg, data):
+                        continue
+                    r = impl.run(cfg, data)
+                    nruns += 1
+                    kind = next(iter(r['outcome']))
+                    fam = 'msgpack' if mp else cfg['proto']
+                    ctx.case({'c04file': cfg_key(cfg), 'doc': doc_to_json(parsed)}, True)
+                    ctx.hit('c04:file:%s:%s:%s:%s' % (form, tag.split(':')[0], 'soft' if cfg['validator'] else 'none', kind))
+                    if tag == 'valid' and kind != 'ok':
+                        ctx.hit('c04:file:valid-not-delivered:%s:%s' % (fam, kind))
+                    pbody, okb = request_body(cfg, parsed)
+                    if modelled and okb and modelled_doc(pbody, m_ty):
+                        B_file.add({'op': 'request', 'cfg': cfg, 'reg': reg, 'ty': m_ty, 'doc': doc_to_json(pbody)}, r['outcome'])
+                    if cfg['validator'] == 'soft' and kind == 'leak':
+                        nleak += 1
+                        what = r.get('leak', '?')
+                        ctx.finding('c04:leak:file:%s:%s' % (fam, what),
+                                    'user code received a File.Value whose attribute is not a value of its declared type (%s)' % what,
+                                    {'op': 'request', 'cfg': cfg, 'ty': in_ty, 'reg': [upload], 'doc': doc_to_json(doc),
+                                     'observed': r['outcome'], 'leak': what, 'mutation': tag, 'form': form})
+    B_file.run('hier.request-file')
+    ctx.cov['c04_file_rule'] = ('f(File, Upload{attachment: File, more: File*, title}) x 32 configurations x {object form, plain-bytes '
+                                'form, mixed} x replacements of a File node / of a name, type, data member by every document kind, plus '
+                                'generic mutations; the oracle walks the captured arguments incl. File.Value.name / type / data')
+    ctx.cov['c04_file_runs'] = nruns
+    ctx.cov['c04_file_leaks_under_soft'] = nleak
 
 
 # ===================================================================================== C05 (dict-document side)
